@@ -153,6 +153,11 @@ Definition aes_encrypt_block (key blk : list N) : list N :=
 Definition aes_decrypt_block (key blk : list N) : list N :=
   match aes_set_decrypt_key key with Some (w, r) => aes_decrypt_rk w r blk | None => [] end.
 
+(* the block function handed to the generic modes (GCM, CBC, CTR): any list is read as a block of
+   16 bytes (identity on 16-byte blocks of bytes, the only inputs the modes produce) *)
+Definition norm16 (x : list N) : list N := firstn 16 (map w8 x ++ zeros 16).
+Definition aes_encrypt_block16 (key x : list N) : list N := aes_encrypt_block key (norm16 x).
+
 (* ---------- the S-box equals its FIPS-197 definition ---------- *)
 (* multiplication in GF(2^8) mod x^8+x^4+x^3+x+1, 8 shift-and-add steps *)
 Fixpoint gmul8 (n : nat) (a b acc : N) : N :=
